@@ -2,8 +2,9 @@ INIT Init
 NEXT Next
 CONSTANTS
   Part = "inf"
-  L = 4
+  L = 5
   Cut = 8
+  Stride = 1
 INVARIANT LawOutDomain
 INVARIANT LawSame
 INVARIANT LawPreserving
